@@ -102,15 +102,36 @@ def canon_viols(s):
     return s
 
 
+INT_RANGE = {(8, True): (-2**7, 2**7 - 1), (16, True): (-2**15, 2**15 - 1), (32, True): (-2**31, 2**31 - 1),
+             (64, True): (-2**63, 2**63 - 1), (8, False): (0, 2**8 - 1), (16, False): (0, 2**16 - 1),
+             (32, False): (0, 2**32 - 1), (64, False): (0, 2**64 - 1)}
+
+
+def single_valued(site):
+    """does the source term at the fault admit exactly one number?  (CUE unifies such a term into a constant)"""
+    m = re.match(r"\(int (\d+) (true|false) (-|-?\d+) (-|-?\d+)\)$", site)
+    if m:
+        lo, hi = INT_RANGE.get((int(m.group(1)), m.group(2) == "true"), (None, None))
+        if lo is None:
+            return False
+        if m.group(3) != "-":
+            lo = max(lo, int(m.group(3)))
+        if m.group(4) != "-":
+            hi = min(hi, int(m.group(4)))
+        return lo == hi
+    m = re.match(r"\(num \d+ (-?[\d.]+) (-?[\d.]+)\)$", site)
+    return bool(m) and float(m.group(1)) == float(m.group(2))
+
+
 def case_text(d):
     irspec = "n/a"
     if d.vspec == "ok":
         irspec = "no-violation"
     elif d.vspec.startswith("invalid"):
         irspec = "violation"
-    return ("fmt=%s kind=%s path=%s shape=%s site=%s oracle=%s validate=%s strict=%s irspec=%s irfaults=%s "
+    return ("fmt=%s kind=%s path=%s shape=%s site=%s site-single-valued=%s oracle=%s validate=%s strict=%s irspec=%s irfaults=%s "
             "model-validate=%s model-strict=%s hyp=%s doc=%s defs=%s") % (
-        d.case.fmt, d.kind, d.path, d.shape, d.site, d.verdict, d.vimpl[:200], d.simpl[:200], irspec, d.tspec[:200],
+        d.case.fmt, d.kind, d.path, d.shape, d.site, "true" if single_valued(d.site) else "false", d.verdict, d.vimpl[:200], d.simpl[:200], irspec, d.tspec[:200],
         d.vmodel[:120], d.tmodel[:120], d.hyp if hasattr(d, "hyp") else d.case.hyp, d.doc, d.case.defs)
 
 
